@@ -16,8 +16,8 @@
 //              "cgs": [{"p": "w/a", "ino": 7, "gen": 0, "ctrl": "memory io", "cur": int, "min": v, "max": v,
 //                       "high": v|"echo", "hightmp": v|"echo", "stat": {key: int}, "mp": [a10,a60,total],
 //                       "iop": [a10,a60,total], "swap_max": v, "swap_cur": int, "reclaim": bool}, ...]}]}
-//   v = int | "max"; an absent / null field = the file does not exist; "echo" = leave the file as the
-//   last write left it.  Parents must precede children in "cgs".
+//   v = int | "max"; an absent / null field = the file does not exist; "empty" (ctrl, cur, min, max, stat,
+//   swap_max, swap_cur) = the file exists and has no bytes; "echo" = leave the file as the last write left it.  Parents must precede children in "cgs".
 // Trace: {"id", "outcome", "init": rc, "ticks": [[{"cg","f","v"}, ...], ...]}
 #include "common.h"
 
@@ -31,6 +31,7 @@
 #include <map>
 #include <memory>
 #include <mutex>
+#include <optional>
 #include <set>
 
 #include "oomd/OomdContext.h"
@@ -183,29 +184,56 @@ std::string psi(const Json::Value& a) {
   return buf;
 }
 
+// What the harness last put into each file of the scratch tree (nullopt = known to be absent), so that
+// unchanged files are not rewritten every tick.  Entries are dropped when the plugin writes the file
+// or the directory is removed.
+std::map<std::string, std::optional<std::string>> g_files;
+std::set<std::string> g_dirs;
+
+void forgetDir(const std::string& dir) {
+  auto under = [&](const std::string& p) { return p == dir || p.compare(0, dir.size() + 1, dir + "/") == 0; };
+  for (auto it = g_files.begin(); it != g_files.end();) {
+    it = under(it->first) ? g_files.erase(it) : std::next(it);
+  }
+  for (auto it = g_dirs.begin(); it != g_dirs.end();) {
+    it = under(*it) ? g_dirs.erase(it) : std::next(it);
+  }
+}
+
 void setFile(const std::string& dir, const char* name, bool present, const std::string& content) {
   std::string p = dir + "/" + name;
+  auto it = g_files.find(p);
   if (!present) {
+    if (it != g_files.end() && !it->second) return;
     ::unlink(p.c_str());
+    g_files[p] = std::nullopt;
   } else {
+    if (it != g_files.end() && it->second && *it->second == content) return;
     vh::writeFile(p, content);
+    g_files[p] = content;
   }
 }
 
 void render(const std::string& dir, const Json::Value& c) {
   auto has = [&](const char* k) { return c.isMember(k) && !c[k].isNull(); };
-  setFile(dir, "cgroup.controllers", has("ctrl"), has("ctrl") ? c["ctrl"].asString() + "\n" : "");
-  setFile(dir, "memory.current", has("cur"), has("cur") ? valStr(c["cur"]) + "\n" : "");
-  setFile(dir, "memory.min", has("min"), has("min") ? valStr(c["min"]) + "\n" : "");
-  setFile(dir, "memory.max", has("max"), has("max") ? valStr(c["max"]) + "\n" : "");
+  // "empty" = the file exists and has no bytes
+  auto isEmpty = [&](const char* k) { return c[k].isString() && c[k].asString() == "empty"; };
+  auto val = [&](const char* k, const char* suffix) {
+    if (!has(k) || isEmpty(k)) return std::string();
+    return valStr(c[k]) + suffix;
+  };
+  setFile(dir, "cgroup.controllers", has("ctrl"), val("ctrl", "\n"));
+  setFile(dir, "memory.current", has("cur"), val("cur", "\n"));
+  setFile(dir, "memory.min", has("min"), val("min", "\n"));
+  setFile(dir, "memory.max", has("max"), val("max", "\n"));
   if (!(has("high") && c["high"].isString() && c["high"].asString() == "echo")) {
-    setFile(dir, "memory.high", has("high"), has("high") ? valStr(c["high"]) + "\n" : "");
+    setFile(dir, "memory.high", has("high"), val("high", "\n"));
   }
   if (!(has("hightmp") && c["hightmp"].isString() && c["hightmp"].asString() == "echo")) {
-    setFile(dir, "memory.high.tmp", has("hightmp"), has("hightmp") ? valStr(c["hightmp"]) + " 0\n" : "");
+    setFile(dir, "memory.high.tmp", has("hightmp"), val("hightmp", " 0\n"));
   }
   std::string stat;
-  if (has("stat")) {
+  if (has("stat") && c["stat"].isObject()) {
     for (auto it = c["stat"].begin(); it != c["stat"].end(); ++it) {
       stat += it.key().asString() + " " + std::to_string(it->asInt64()) + "\n";
     }
@@ -213,13 +241,17 @@ void render(const std::string& dir, const Json::Value& c) {
   setFile(dir, "memory.stat", has("stat"), stat);
   setFile(dir, "memory.pressure", has("mp"), has("mp") ? psi(c["mp"]) : "");
   setFile(dir, "io.pressure", has("iop"), has("iop") ? psi(c["iop"]) : "");
-  setFile(dir, "memory.swap.max", has("swap_max"), has("swap_max") ? valStr(c["swap_max"]) + "\n" : "");
-  setFile(dir, "memory.swap.current", has("swap_cur"), has("swap_cur") ? valStr(c["swap_cur"]) + "\n" : "");
+  setFile(dir, "memory.swap.max", has("swap_max"), val("swap_max", "\n"));
+  setFile(dir, "memory.swap.current", has("swap_cur"), val("swap_cur", "\n"));
   setFile(dir, "memory.reclaim", has("reclaim") && c["reclaim"].asBool(), "");
 }
 
 void runScenario(const Json::Value& sc, Json::Value& out) {
-  g_root = vh::freshDir("senpai");
+  // a crashed earlier process with the same pid may have left a directory of the same name behind
+  std::string root0 = vh::freshDir("senpai");
+  rmTree(root0);
+  vh::mkdirs(root0);
+  g_root = root0;
   g_cgfs = g_root + "/cg";
   vh::mkdirs(g_cgfs);
   vh::mkdirs(g_root + "/proc");
@@ -264,12 +296,15 @@ void runScenario(const Json::Value& sc, Json::Value& out) {
         // removed cgroups, and cgroups whose identity changed (removed and re-created)
         for (auto it = prev.rbegin(); it != prev.rend(); ++it) {
           auto f = cur.find(it->first);
-          if (f == cur.end() || f->second != it->second) rmTree(g_cgfs + "/" + it->first);
+          if (f == cur.end() || f->second != it->second) {
+            rmTree(g_cgfs + "/" + it->first);
+            forgetDir(g_cgfs + "/" + it->first);
+          }
         }
         g_ino.clear();
         for (const auto& c : tick["cgs"]) {
           std::string dir = g_cgfs + "/" + c["p"].asString();
-          vh::mkdirs(dir);
+          if (g_dirs.insert(dir).second) vh::mkdirs(dir);
           render(dir, c);
           g_ino[c["p"].asString()] = c["ino"].asUInt64();
         }
@@ -295,6 +330,11 @@ void runScenario(const Json::Value& sc, Json::Value& out) {
           out["outcome"] = std::string("uncaught:") + e.what();
         }
         g_rec = false;
+        for (const auto& e : g_events) {
+          if (e["cg"].asString().compare(0, 1, "?") != 0 && e["f"].asString() != "swappiness") {
+            g_files.erase(g_cgfs + "/" + e["cg"].asString() + "/" + e["f"].asString());
+          }
+        }
         out["ticks"].append(g_events);
         if (out["outcome"].asString() != "ok") break;
       }
@@ -304,6 +344,8 @@ void runScenario(const Json::Value& sc, Json::Value& out) {
   g_root.clear();
   g_cgfs.clear();
   g_ino.clear();
+  g_files.clear();
+  g_dirs.clear();
   rmTree(root);
 }
 
